@@ -42,8 +42,10 @@ RULE = ("cases come from random.Random(VERIF_SEED): integer-valued data tensors 
         "mode order and every non-empty subset of optimised modes for order <= 3 (enumerated completely for one "
         "tensor per data kind), iteration limits 1..6, stoptol in {0, 1e-9, 1e-4, 1e-2, 0.1}, fixsigns on/off, "
         "printitn in {0,1,2,5}; plus degenerate inputs (zero tensor, zero factor in the guess) and a malformed "
-        "stream (bad dimorder / optdims / rank / start / limit 0). A case is non-trivial when cp_als accepts it, "
-        "no solve was refused and the data is not the zero tensor; distinct = distinct case hash")
+        "stream (bad dimorder / optdims / rank / start / limit 0). Normal form is checked as: every column has 2-norm 1 "
+        "to 1e-8, or is entirely zero with weight exactly 0 (a component that collapsed to zero, tag zero-component "
+        "- the `unit or zero` alternative of C09_normal_form). A case is non-trivial when cp_als accepts it, no "
+        "solve was refused, no component collapsed and the data is not the zero tensor; distinct = distinct case hash")
 ASSUMPTIONS = [
     "IEEE rounding is not modelled: one pass of the loop is compared with the model at Float from the recorded "
     "state (relative 1e-9, absolute 1e-12); quantities formed by cancellation (normresidual, fit) are compared on "
